@@ -50,8 +50,10 @@ class Outcome:
         return "%s:%s" % (self.kind, self.detail)
 
 
-def query(doc, path, mustexist=True, default=None):
-    """Drain Processor.get_nodes; path may be text or a YAMLPath."""
+def query(doc, path, mustexist=True, default=None, limit=None):
+    """Drain Processor.get_nodes; path may be text or a YAMLPath.  With a
+    limit, a generator still yielding after that many results is reported as
+    a crash of kind Endless (a query which feeds on what it creates)."""
     proc = Processor(LOG, doc)
     ncs = []
     try:
@@ -61,6 +63,9 @@ def query(doc, path, mustexist=True, default=None):
             gen = proc.get_nodes(path, mustexist=False, default_value=default)
         for nc in gen:
             ncs.append(nc)
+            if limit is not None and len(ncs) > limit:
+                return Outcome("crash", ncs, "Endless@more than %d results"
+                               % limit)
         return Outcome("nodes", ncs)
     except UnmatchedYAMLPathException:
         if ncs:
